@@ -1,6 +1,7 @@
 package main
 
 import (
+	"strconv"
 	"fmt"
 	"strings"
 
@@ -195,7 +196,7 @@ func runInvokeTwin(args []*Sexp) *Sexp {
 		return out
 	}
 	switch mode {
-	case "direct", "callback-pooled", "callback-unpooled", "callback-kept-pooled", "callback-kept-unpooled", "callback-kept-cycled-pooled":
+	case "direct", "callback-pooled", "callback-unpooled", "callback-kept-pooled", "callback-kept-unpooled", "callback-kept-cycled-pooled", "callback-pooled-after-abort":
 		cycledInvokers = strings.Contains(mode, "cycled")
 		defer func() { cycledInvokers = false }()
 		src := "global (invoke, gopanic)\nout := []\n" + defs
@@ -207,7 +208,24 @@ func runInvokeTwin(args []*Sexp) *Sexp {
 		if pan != nil || err != nil {
 			return L(A("compile-error"), A(sanitize(fmt.Sprint(err, pan))))
 		}
-		return runVM(ugo.NewVM(bc).SetRecover(true), invokeGlobalsKept(strings.HasSuffix(mode, "-pooled"), strings.Contains(mode, "kept")))
+		if strings.Contains(mode, "after-abort") {
+			// another VM was aborted by its host while pooled child VMs ran callbacks for it (they go back to
+			// the pool); the calls compared here are made afterwards, on the same goroutine
+			for k := 0; k < 4; k++ {
+				pbc, perr, ppan := compileSrc([]byte("global (invoke, stop)\nvar f\nf = func(n) { if n > 0 { return invoke(f, n - 1) }; stop(); return 1 }\nreturn invoke(f, "+strconv.Itoa(k)+")\n"), opts)
+				if perr != nil || ppan != nil {
+					return L(A("compile-error"), A(sanitize(fmt.Sprint(perr, ppan))))
+				}
+				a := ugo.NewVM(pbc).SetRecover(true)
+				g := invokeGlobalsKept(true, false)
+				g["stop"] = &ugo.Function{Name: "stop", Value: func(args ...ugo.Object) (ugo.Object, error) {
+					a.Abort()
+					return ugo.Undefined, nil
+				}}
+				_, _ = a.Run(g)
+			}
+		}
+		return runVM(ugo.NewVM(bc).SetRecover(true), invokeGlobalsKept(strings.Contains(mode, "-pooled"), strings.Contains(mode, "kept")))
 	case "post-pooled", "post-unpooled":
 		names := map[string]bool{}
 		for _, s := range seq {
